@@ -14,6 +14,10 @@ and weights alone.  Every unit spectral vector of the certificate grids is sent 
 Hyp: the separable Gram criterion proved sufficient in `Dino.SH.gram_of_separable` is evaluated in float64
 on the T*/TL* factory grids over the block the spacing rule says is resolved (1e-10).
 
+T1.5 tie: the discrete Fourier Gram matrix of the REAL `fourier.real_basis*` arrays under the `quadrature_nodes` weight is
+compared, for a sweep of (M, N) including N = M, 2M-2, 2M-1, odd / even N, with the closed form proved in
+Lemmas/FourierOrtho.lean for all sizes: identity (1e-12) iff 2(M-1) < N, a defect >= 1 otherwise.
+
 Sentinel probes (tests on the real code): round trip, integral, independence from / absence of
 coefficients outside the triangle, on random and unit spectra with leading batch axes.
 """
@@ -426,6 +430,9 @@ def run(ctx: common.Ctx):
                    f'{spacing} rule with {J} nodes: moment error {err:.3e} up to degree {deg}', inp)
         ctx.case(('quad', spacing, J), nontrivial=J >= 2)
 
+  # ------------------------------------------------------------------ T1.5: Fourier Gram of the REAL basis arrays, all sizes
+  if os.path.exists(os.path.join(common.LEAN, 'DinoProofs/Lemmas/FourierOrtho.lean')):
+    probe_fourier_gram(ctx, fourier)
   phase('probes')
   # ------------------------------------------------------------------ Hyp: separable Gram criterion on factory grids
   for name in (FACTORY_QUICK if ctx.quick else FACTORY_THOROUGH):
@@ -500,6 +507,114 @@ def separable_gram_deviation(g, cfg):
       l, c = np.unravel_index(np.abs(blk).argmax(), blk.shape)
       worst, where = d, f'row {int(r)}, (l, l\') = ({int(l)}, {int(cols[c])})'
   return float(worst), where
+
+
+def fourier_gram_closed_form(M, N):
+  """the exact Gram matrix of `real_basis(M, N)` under the weight 2 pi / N proved in Lemmas/FourierOrtho.lean
+  (gram_const_const / const_cos / const_sin / cos_cos / sin_sin / cos_sin), with [.] = `N divides .`"""
+  R = 2 * M - 1
+  dv = lambda k: 1.0 if k % N == 0 else 0.0
+  g = np.zeros((R, R))
+  for r in range(R):
+    for q in range(R):
+      m, k = (r + 1) // 2, (q + 1) // 2
+      if r == 0 and q == 0:
+        g[r, q] = 1.0
+      elif r == 0 or q == 0:
+        other = q if r == 0 else r
+        g[r, q] = math.sqrt(2.0) * dv(max(m, k)) if other % 2 == 1 else 0.0
+      elif r % 2 == 1 and q % 2 == 1:
+        g[r, q] = dv(m - k) + dv(m + k)
+      elif r % 2 == 0 and q % 2 == 0:
+        g[r, q] = dv(m - k) - dv(m + k)
+  return g
+
+
+def fourier_sweep(ctx):
+  """(M, N) with N >= M (the guard of real_basis): all small sizes, the boundary cases N = 2M-1 (smallest resolved),
+  N = 2M-2 (largest aliased), N = M, odd / even N, M = 1, and the sizes of the factory grids"""
+  mmax = ctx.n(9, 24)
+  out = []
+  for M in range(1, mmax + 1):
+    for N in range(M, 3 * M + 3):
+      out.append((M, N))
+  for M in ([16, 22, 32, 43] if ctx.quick else [16, 22, 32, 43, 48, 64, 86, 107, 128]):
+    for N in sorted({M, 2 * M - 3, 2 * M - 2, 2 * M - 1, 2 * M, 3 * M + 1, 4 * ((3 * M + 3) // 4)}):
+      if N >= max(M, 1):
+        out.append((M, N))
+  out += [(22, 64), (32, 64), (48, 96)]                      # T21, TL31, TL47
+  return out
+
+
+def probe_fourier_gram(ctx, fourier):
+  """Tie of T1.5 (Dino.C01.fourier_orthonormal_iff, fourier_column_orthonormal, fourier_zero_imag_orthonormal,
+  fourier_aliasing_at_boundary) to the arrays of the real `fourier.real_basis*` / `quadrature_nodes`."""
+  worst_res, worst_form, n_res, n_alias, min_defect = 0.0, 0.0, 0, 0, np.inf
+  for M, N in fourier_sweep(ctx):
+    inp = dict(wavenumbers=M, nodes=N)
+    resolved = 2 * (M - 1) < N                                # the resolution condition of the theorem
+    with ctx.impl('fourier-gram', inp):
+      f = np.asarray(fourier.real_basis(M, N), dtype=float)
+      fz = np.asarray(fourier.real_basis_with_zero_imag(M, N), dtype=float)
+      xs, w = fourier.quadrature_nodes(N)
+      ctx.expect(np.ndim(w) == 0 and abs(float(w) * N / (2 * math.pi) - 1) <= 1e-15, 'fourier-weight',
+                 f'quadrature_nodes({N}) weight {w!r} is not 2 pi / N', inp)
+      ctx.expect(np.abs(np.asarray(xs) - 2 * math.pi * np.arange(N) / N).max() <= 1e-14 * 2 * math.pi, 'fourier-nodes',
+                 'quadrature_nodes are not 2 pi i / N', inp)
+      g = float(w) * f.T @ f
+      gz = float(w) * fz.T @ fz
+      pred = fourier_gram_closed_form(M, N)
+      R = 2 * M - 1
+      eye = np.eye(R)
+      # the closed form is the identity exactly when the theorem says so (pure arithmetic on the statement)
+      if resolved != bool((pred == eye).all()):
+        ctx.corr_mismatch('T1.5 closed form vs resolution condition', inp, resolved, pred.tolist(),
+                          'the closed-form Gram matrix is the identity iff 2(M-1) < N')
+      err_form = float(np.abs(g - pred).max())
+      worst_form = max(worst_form, err_form)
+      ctx.corr_float('fourier Gram of real_basis vs closed form (T1.5)', inp, g, pred, rtol=0.0, atol=1e-12)
+      # zero-imag layout: the same matrix with a zero row / column inserted at index 1
+      src = np.array([0] + list(range(2, 2 * M)))
+      predz = np.zeros((2 * M, 2 * M))
+      predz[np.ix_(src, src)] = pred
+      ctx.corr_float('fourier Gram of real_basis_with_zero_imag vs closed form (T1.5)', inp, gz, predz, rtol=0.0,
+                     atol=1e-12)
+      # per column: unit vector as soon as (r'+1)/2 + (M-1) < N  (fourier_column_orthonormal)
+      cols = np.array([(q + 1) // 2 + (M - 1) < N for q in range(R)])
+      if cols.any():
+        dcol = float(np.abs((g - eye)[:, cols]).max())
+        ctx.expect(dcol <= 1e-12, 'fourier-gram', f'resolved columns of the Fourier Gram matrix deviate {dcol:.3e} from the '
+                   f'unit vectors (M={M}, N={N})', inp)
+      if resolved:
+        n_res += 1
+        d = float(np.abs(g - eye).max())
+        worst_res = max(worst_res, d)
+        ctx.expect(d <= 1e-12, 'fourier-gram',
+                   f'2(M-1) < N but the Fourier Gram matrix deviates {d:.3e} from the identity (M={M}, N={N})', inp)
+        ez = np.eye(2 * M)
+        ez[1, 1] = 0.0
+        dz = float(np.abs(gz - ez).max())
+        ctx.expect(dz <= 1e-12, 'fourier-gram',
+                   f'zero-imag Gram matrix deviates {dz:.3e} from identity-without-row-1 (M={M}, N={N})', inp)
+      else:
+        n_alias += 1
+        d = float(np.abs(g - eye).max())
+        min_defect = min(min_defect, d)
+        if not d >= 1.0 - 1e-12:
+          ctx.corr_mismatch('T1.5 aliasing defect', inp, d, '>= 1',
+                            'N <= 2(M-1): the theorem says some Gram entry is off by at least 1')
+        if N == 2 * (M - 1):                                  # fourier_aliasing_at_boundary
+          ctx.corr_float('T1.5 boundary N = 2(M-1): cos / sin norms of the top wavenumber', inp,
+                         [g[R - 2, R - 2], g[R - 1, R - 1]], [2.0, 0.0], rtol=0.0, atol=1e-12)
+      kind = ('N=2M-1' if N == 2 * M - 1 else 'N=2M-2' if N == 2 * M - 2 else 'N=M' if N == M else
+              'resolved' if resolved else 'aliased')
+      ctx.dist[f'fourier-gram:{kind}'] += 1
+      ctx.dist[f'fourier-gram:N {"odd" if N % 2 else "even"}'] += 1
+      ctx.case(('fourier-gram', M, N), nontrivial=M >= 2)
+  ok = worst_res <= 1e-12 and worst_form <= 1e-12 and (n_alias == 0 or min_defect >= 1.0 - 1e-12)
+  ctx.obligation('tie:T1.5 Fourier Gram of the real basis arrays', 'hypothesis', ok,
+                 f'{n_res} resolved sizes: max |G - 1| = {worst_res:.2e}; {n_alias} aliased sizes: min defect = '
+                 f'{min_defect:.3f}; closed form max error {worst_form:.2e}')
 
 
 def probe_grid(ctx, jnp, sh, g, cfg, inp0, nspec, units):
